@@ -205,4 +205,15 @@ example :
     normalize W₀ (.app false 5 [.union false [.cls 0, .cls 1]])
       ≠ normalize W₀ (.union false [.app false 5 [.cls 0], .app false 5 [.cls 1]]) := by decide
 
+/-!
+  Not modelled here: loaders, dumpers and predicates.  "Equivalent hints yield
+  equivalent loaders, dumpers and predicates" follows from the theorems above for
+  everything that depends on a hint only through its normal form (`ExactTypeLSC`
+  compares normal forms; providers dispatch on `norm.origin`/`norm.args`); it is
+  checked on the real library by the direct oracle of `harness/props/c15.py`.
+  That oracle found one place that looks at the *raw* hint instead — model shape
+  introspection of a union member merged from two spellings of one model class —
+  recorded as known finding `retort:collapsed-union-of-model`.
+-/
+
 end Adaptix.Types.C15
